@@ -344,41 +344,43 @@ Definition arity_ok (op : operator) (n : nat) : bool :=
   | Cast | InView | OfType | RelatedTo => false       (* outside the property's list *)
   end.
 
-(* unfolding a content filter from element i into a tree; None = not well formed (a loop, an index
+Definition map_opt {A B} (f : A -> option B) : list A -> option (list B) :=
+  fix go (l : list A) : option (list B) :=
+    match l with
+    | [] => Some []
+    | a :: l' => match f a, go l' with
+                 | Some b, Some bs => Some (b :: bs)
+                 | _, _ => None
+                 end
+    end.
+
+(* unfolding a content filter from an element into a tree; None = not well formed (a loop, an index
    outside the clause, an attribute operand, an undecodable operand, a wrong operand count) *)
 Section Unfold.
   Variable els : list element.
+  Definition unfold_operand (rec : list Z -> element -> option expr) (used : list Z) (o : operand) : option expr :=
+    match o with
+    | OLit v => Some (XLit v)
+    | OAttr k => Some (XAttr k)
+    | OAttribute | OBad => None
+    | OElem i =>
+        if mem i used then None
+        else if (0 <=? i) && (i <? Z.of_nat (length els)) then
+          match nth_error els (Z.to_nat i) with
+          | Some e' => rec (i :: used) e'
+          | None => None
+          end
+        else None
+    end.
   Fixpoint unfold (fuel : nat) (used : list Z) (e : element) {struct fuel} : option expr :=
     match fuel with
     | O => None
     | S fuel' =>
-        let unfold_operand (o : operand) : option expr :=
-          match o with
-          | OLit v => Some (XLit v)
-          | OAttr k => Some (XAttr k)
-          | OAttribute | OBad => None
-          | OElem i =>
-              if mem i used then None
-              else if (0 <=? i) && (i <? Z.of_nat (length els)) then
-                match nth_error els (Z.to_nat i) with
-                | Some e' => unfold fuel' (i :: used) e'
-                | None => None
-                end
-              else None
-          end in
         match el_ops e with
         | None => None
         | Some ops =>
             if arity_ok (el_op e) (length ops) then
-              option_map (XOp (el_op e))
-                ((fix all (l : list operand) : option (list expr) :=
-                    match l with
-                    | [] => Some []
-                    | o :: l' => match unfold_operand o, all l' with
-                                 | Some x, Some xs => Some (x :: xs)
-                                 | _, _ => None
-                                 end
-                    end) ops)
+              option_map (XOp (el_op e)) (map_opt (unfold_operand (unfold fuel') used) ops)
             else None
         end
     end.
@@ -412,21 +414,26 @@ Definition ref_common (v1 v2 : value) : value * value :=
   if precedence (type_id v1) <? precedence (type_id v2) then (v1, ref_convert v2 (type_id v1))
   else (ref_convert v1 (type_id v2), v2).
 
-(* Some Lt/Eq/Gt: ordered; None: not comparable or unequal.  [equal] answers Equals. *)
-Record rcmp := mk_rcmp { r_ord : option comparison; r_equal : bool }.
-Definition ref_compare (v1 v2 : value) : option rcmp :=
+(* Some (Some Lt/Eq/Gt): ordered or equal; Some None: not comparable, unordered (NaN) or unequal
+   values of a type without order; None: outside the modelled fragment *)
+Definition ref_compare (v1 v2 : value) : option (option comparison) :=
   let '(a, b) := ref_common v1 v2 in
   if is_poison a || is_poison b then None else
   Some match a, b with
-  | VInt s x, VInt t y => if ity_eqb s t then mk_rcmp (Some (x ?= y)) (x =? y) else mk_rcmp None false
-  | VDouble x, VDouble y => let r := dcmp x y in mk_rcmp r (match r with Some Eq => true | _ => false end)
-  | VFloat x, VFloat y => let r := fcmp x y in mk_rcmp r (match r with Some Eq => true | _ => false end)
-  | VEmpty, _ | _, VEmpty => mk_rcmp None false          (* a null, or a failed conversion *)
-  | _, _ => let e := value_eqb a b in mk_rcmp (if e then Some Eq else None) e
+  | VInt s x, VInt t y => if ity_eqb s t then Some (x ?= y) else None
+  | VDouble x, VDouble y => dcmp x y
+  | VFloat x, VFloat y => fcmp x y
+  | VEmpty, _ | _, VEmpty => None          (* a null, or a failed conversion *)
+  | _, _ => if value_eqb a b then Some Eq else None
   end.
 
-Definition ord_is (r : rcmp) (accept : comparison -> bool) : bool :=
-  match r_ord r with Some o => accept o | None => false end.
+Definition ord_is (r : option comparison) (accept : comparison -> bool) : bool :=
+  match r with Some o => accept o | None => false end.
+Definition is_Eq (o : comparison) : bool := match o with Eq => true | _ => false end.
+Definition is_Gt (o : comparison) : bool := match o with Gt => true | _ => false end.
+Definition is_Lt (o : comparison) : bool := match o with Lt => true | _ => false end.
+Definition is_Ge (o : comparison) : bool := match o with Lt => false | _ => true end.
+Definition is_Le (o : comparison) : bool := match o with Gt => false | _ => true end.
 
 (* three-valued logic: None is NULL *)
 Definition tri (v : value) : option bool := match convert v TBool with VBool b => Some b | _ => None end.
@@ -474,31 +481,34 @@ Definition ref_like (v1 v2 : value) : option value :=
   | _, _ => Some (VBool false)
   end.
 
+Fixpoint ref_in_list (a : value) (l : list value) : option bool :=
+  match l with
+  | [] => Some false
+  | b :: l' => match ref_compare a b, ref_in_list a l' with
+               | Some r, Some rest => Some (ord_is r is_Eq || rest)
+               | _, _ => None
+               end
+  end.
+
+Definition ref_cmp_op (accept : comparison -> bool) (a b : value) : option value :=
+  option_map (fun r => VBool (ord_is r accept)) (ref_compare a b).
+
 Definition ref_op (op : operator) (vs : list value) : option value :=
   match op, vs with
-  | Equals, [a; b] => option_map (fun r => VBool (r_equal r)) (ref_compare a b)
-  | GreaterThan, [a; b] => option_map (fun r => VBool (ord_is r (fun o => match o with Gt => true | _ => false end))) (ref_compare a b)
-  | LessThan, [a; b] => option_map (fun r => VBool (ord_is r (fun o => match o with Lt => true | _ => false end))) (ref_compare a b)
-  | GreaterThanOrEqual, [a; b] => option_map (fun r => VBool (ord_is r (fun o => match o with Lt => false | _ => true end))) (ref_compare a b)
-  | LessThanOrEqual, [a; b] => option_map (fun r => VBool (ord_is r (fun o => match o with Gt => false | _ => true end))) (ref_compare a b)
+  | Equals, [a; b] => ref_cmp_op is_Eq a b
+  | GreaterThan, [a; b] => ref_cmp_op is_Gt a b
+  | LessThan, [a; b] => ref_cmp_op is_Lt a b
+  | GreaterThanOrEqual, [a; b] => ref_cmp_op is_Ge a b
+  | LessThanOrEqual, [a; b] => ref_cmp_op is_Le a b
   | IsNull, [a] => Some (VBool (is_empty a))
   | Like, [a; b] => ref_like a b
   | Not, [a] => Some (tri_value (tri_not (tri a)))
   | Between, [a; lo; hi] =>
       match ref_compare a lo, ref_compare a hi with
-      | Some r1, Some r2 => Some (VBool (ord_is r1 (fun o => match o with Lt => false | _ => true end)
-                                        && ord_is r2 (fun o => match o with Gt => false | _ => true end)))
+      | Some r1, Some r2 => Some (VBool (ord_is r1 is_Ge && ord_is r2 is_Le))
       | _, _ => None
       end
-  | InList, a :: l =>
-      (fix any (l : list value) : option value :=
-         match l with
-         | [] => Some (VBool false)
-         | b :: l' => match ref_compare a b, any l' with
-                      | Some r, Some (VBool rest) => Some (VBool (r_equal r || rest))
-                      | _, _ => None
-                      end
-         end) l
+  | InList, a :: l => option_map VBool (ref_in_list a l)
   | And, [a; b] => Some (tri_value (tri_and (tri a) (tri b)))
   | Or, [a; b] => Some (tri_value (tri_or (tri a) (tri b)))
   | BitwiseAnd, [a; b] => ref_bitwise true a b
@@ -512,18 +522,28 @@ Section Ref.
     match e with
     | XLit v => Some v
     | XAttr k => Some (field fields k)
+    | XOp op args => match map_opt ref_eval args with
+                     | Some vs => ref_op op vs
+                     | None => None
+                     end
+    end.
+
+  (* does the reference evaluation meet the wildcard _ (known finding 1)? *)
+  Fixpoint uses_one (e : expr) : bool :=
+    match e with
     | XOp op args =>
-        match (fix all (l : list expr) : option (list value) :=
-                 match l with
-                 | [] => Some []
-                 | x :: l' => match ref_eval x, all l' with
-                              | Some v, Some vs => Some (v :: vs)
-                              | _, _ => None
-                              end
-                 end) args with
-        | Some vs => ref_op op vs
-        | None => None
+        existsb uses_one args ||
+        match op, args with
+        | Like, [_; b] => match ref_eval b with
+                          | Some (VStr pat) => match like_parse_checked pat with
+                                               | Some p => has_one p
+                                               | None => false
+                                               end
+                          | _ => false
+                          end
+        | _, _ => false
         end
+    | _ => false
     end.
 End Ref.
 
@@ -562,20 +582,21 @@ Definition oracle (c : case) (out : list Z) : bool :=
   | CLikeText pat => no_crash out
   end.
 
-(* known finding 1: `_` is translated to `?` (pinned by like_to_regex_tests): a LIKE whose
-   pattern contains the character `_` *)
-Definition has_us (s : list Z) : bool := mem cUS s.
-Definition value_has_us (v : value) : bool := match v with VStr s => has_us s | _ => false end.
-Definition operand_has_us (o : operand) : bool := match o with OLit v => value_has_us v | _ => false end.
-Definition element_is_like (e : element) : bool := match el_op e with Like => true | _ => false end.
-Definition element_has_us (e : element) : bool :=
-  match el_ops e with Some ops => existsb operand_has_us ops | None => false end.
+(* known finding 1: `_` is translated to `?` (pinned by like_to_regex_tests).  The class: the
+   reference evaluation of a well-formed clause meets a LIKE pattern with the wildcard `_` *)
+Definition known_filter (fields : list value) (els : option (list element)) : Z :=
+  match els with
+  | Some l => match unfold_clause l with
+              | Some e => if uses_one fields e then 1 else 0
+              | None => 0
+              end
+  | None => 0
+  end.
 
 Definition known (c : case) : Z :=
   match c with
-  | CFilter fields (Some els) =>
-      if existsb element_is_like els && (existsb value_has_us fields || existsb element_has_us els) then 1 else 0
-  | CLike pat _ => if has_us pat then 1 else 0
+  | CFilter _ _ | CDeep _ _ => let '(f, e) := filter_of c in known_filter f e
+  | CLike pat _ => match like_parse_checked pat with Some p => if has_one p then 1 else 0 | None => 0 end
   | _ => 0
   end.
 
